@@ -30,6 +30,7 @@ import (
 )
 
 var c14Relations = []string{"behind", "equal", "ahead", "fork-ahead", "fork-same-txid", "fork-behind", "missing", "rolled-back", "big-batch", "after-drop", "after-retention", "restart-retention"}
+var c14FaultsExtra = []string{"wrap-corrupt-snapshot"}
 var c14Faults = []string{"wrap-before", "wrap-mid", "wrap-lost-ack", "srv-503-before", "srv-500-after-store", "srv-close-after-store"}
 
 func init() {
@@ -48,13 +49,14 @@ func init() {
 		CaseTimeout: 240 * time.Second,
 		Run:         runC14,
 		Floors: func(tier string) map[string]int {
-			m := map[string]int{"syncs_judged": 300, "uploads_seen": 150, "restores_seen": 20, "converged_identical": 80, "adopted_service": 20, "hwm_samples": 1000, "client_file": 20, "client_cloud": 20, "batches_over_256": 2, "lost_ack_then_converged": 4, "snapshot_uploads": 20, "background_converged": 4, "background_outage_batches": 2}
+			m := map[string]int{"syncs_judged": 300, "uploads_seen": 150, "restores_seen": 20, "converged_identical": 80, "adopted_service": 20, "hwm_samples": 1000, "client_file": 20, "client_cloud": 20, "batches_over_256": 2, "lost_ack_then_converged": 4, "snapshot_uploads": 20, "background_converged": 4, "fresh_primary_adopted_existing_service": 2, "background_outage_batches": 2}
 			for _, r := range c14Relations {
 				m["rel_"+r] = 3
 			}
 			for _, f := range c14Faults {
 				m["fault_"+f] = 2
 			}
+			m["fault_wrap-corrupt-snapshot"] = 4
 			return m
 		},
 	})
@@ -333,10 +335,10 @@ func (e c14ErrReader) Read([]byte) (int, error) { return 0, e.err }
 func (r *c14Rec) WriteTx(ctx context.Context, name string, rd io.Reader) (ltx.TXID, error) {
 	r.mu.Lock()
 	fault := r.fault
-	if strings.HasPrefix(fault, "wrap-") {
+	if fault == "wrap-before" || fault == "wrap-mid" || fault == "wrap-lost-ack" {
 		r.fault = ""
 	} else {
-		fault = ""
+		fault = "" // (other kinds belong to other calls)
 	}
 	r.mu.Unlock()
 	e := c14Event{Op: "WriteTx", DB: name, Fault: fault}
@@ -381,6 +383,25 @@ func (r *c14Rec) WriteTx(ctx context.Context, name string, rd io.Reader) (ltx.TX
 func (r *c14Rec) FetchSnapshot(ctx context.Context, name string) (io.ReadCloser, error) {
 	rc, err := r.inner.FetchSnapshot(ctx, name)
 	e := c14Event{Op: "FetchSnapshot", DB: name}
+	r.mu.Lock()
+	corrupt := r.fault == "wrap-corrupt-snapshot"
+	if corrupt {
+		r.fault = ""
+	}
+	r.mu.Unlock()
+	if err == nil && corrupt {
+		// the snapshot arrives damaged: full length, one byte flipped in a page
+		b, rerr := io.ReadAll(rc)
+		_ = rc.Close()
+		if rerr == nil && len(b) > ltx.HeaderSize+64 {
+			b[ltx.HeaderSize+40] ^= 0x5a
+			e.Fault = "wrap-corrupt-snapshot"
+
+			r.add(e)
+			return io.NopCloser(bytes.NewReader(b)), nil
+		}
+		err = rerr
+	}
 	if err != nil {
 		e.Err = err.Error()
 	}
@@ -467,6 +488,7 @@ func runC14(c *core.Case) {
 	defer svc.close()
 	led := newLedger()
 	led.put("db", mon.PosKey{}, ref.NewImage(ps))
+	tuningShadow := false // shadows are always driven by explicit syncs
 	mkTune := func(rec *c14Rec) func(*litefs.Store) {
 		return func(s *litefs.Store) {
 			rec.inner = svc.client(s)
@@ -475,7 +497,7 @@ func runC14(c *core.Case) {
 			}
 			s.BackupClient = rec
 			s.BackupDelay = 0
-			if background {
+			if background && !tuningShadow {
 				s.BackupDelay = 5 * time.Millisecond
 				s.BackupFullSyncInterval = 60 * time.Millisecond
 				if bigBackground {
@@ -808,7 +830,9 @@ func runC14(c *core.Case) {
 		closeShadow()
 		shadowSeq++
 		rec := &c14Rec{}
+		tuningShadow = true
 		n, err := newPrimary(filepath.Join(c.Dir, fmt.Sprintf("shadow%d", shadowSeq)), mkTune(rec))
+		tuningShadow = false
 		if err != nil {
 			c.Inconclusive("shadow: " + err.Error())
 			return false
@@ -829,6 +853,90 @@ func runC14(c *core.Case) {
 		return true
 	}
 
+	if background && c.Index%22 == 10 {
+		// A service that already holds a chain for the database (left by an earlier
+		// primary) and a fresh primary running the background loop: the application
+		// creates the (still empty) file, a stream round runs, then the first local
+		// commit arrives. The service's chain must stay intact and the primary must
+		// end up adopting it.
+		c.Count("background_cases", 1)
+		if !extendViaShadow(2 + c.Rng.IntN(3)) {
+			return
+		}
+		svcBefore := c14ChainOf(svc.files("db"))
+		hist = append(hist, fmt.Sprintf("service holds a chain up to %s from an earlier primary", svcBefore.pos))
+		f, err := P.n.OpenOrCreate("db")
+		if err != nil {
+			c.Violate("C14/setup", "create: "+err.Error(), detail(nil))
+			return
+		}
+		_ = f.Release()
+		m0 := P.rec.mark()
+		for dl := time.Now().Add(10 * time.Second); time.Now().Before(dl); {
+			n := 0
+			for _, e := range P.rec.since(m0) {
+				if e.Op == "PosMap" && e.Err == "" {
+					n++
+				}
+			}
+			if n >= 1 {
+				break
+			}
+			time.Sleep(5 * time.Millisecond)
+		}
+		time.Sleep(20 * time.Millisecond)
+		if mon.PosOf(P.n, "db").TXID == 0 {
+			// not restored yet: the application commits its first transaction
+			if err := openWriter(P, true); err == nil {
+				_ = P.w.ensure(uint32(3 + c.Rng.IntN(3)))
+				P.w.close()
+				P.w = nil
+			}
+			hist = append(hist, "first local commit on the fresh primary")
+		} else {
+			hist = append(hist, "the fresh primary restored from the service before the application wrote")
+		}
+		deadline := time.Now().Add(30 * time.Second)
+		for {
+			ch, ok := judgeService("fresh primary over an existing service")
+			if !ok || checkHWM() {
+				return
+			}
+			if ch.n < svcBefore.n || c14ChainOf(svc.files("db")[:svcBefore.n]).digest != svcBefore.digest {
+				c.Violate("C14/service-overwritten", fmt.Sprintf("the service held a chain up to %s; the fresh primary's uploads changed those files (now %d files ending at %s)", svcBefore.pos, ch.n, ch.pos), detail(nil))
+				return
+			}
+			if pos := mon.PosOf(P.n, "db"); pos == ch.pos && pos.TXID >= svcBefore.pos.TXID {
+				img := mon.RawImage(mon.DBDir(P.n, "db"))
+				if d := ch.img.Diff(img); d != "" {
+					c.Violate("C14/restored-differs-from-primary", "fresh primary over an existing service: "+d, detail(nil))
+					return
+				}
+				c.Count("converged_identical", 1)
+				c.Count("adopted_service", 1)
+				c.Count("background_converged", 1)
+				c.Count("fresh_primary_adopted_existing_service", 1)
+				c.Distinct("background/fresh-over-existing")
+				return
+			}
+			if time.Now().After(deadline) {
+				pos := mon.PosOf(P.n, "db")
+				refreshes := 0
+				for _, e := range P.rec.since(m0) {
+					if e.Op == "PosMap" && e.Err == "" {
+						refreshes++
+					}
+				}
+				if refreshes >= 8 {
+					c.Violate("C14/not-converged", fmt.Sprintf("fresh primary over an existing service: after %d position-map refreshes the service is at %s and the primary at %s", refreshes, ch.pos, pos), detail(nil))
+				} else {
+					c.Inconclusive("background loop made too few rounds within the watchdog")
+				}
+				return
+			}
+			time.Sleep(10 * time.Millisecond)
+		}
+	}
 	// ---- initial history: create, commit, first sync (snapshot upload)
 	if err := commitN(P, 2+c.Rng.IntN(3)); err != nil {
 		c.Violate("C14/setup", err.Error(), detail(nil))
@@ -1039,6 +1147,44 @@ func runC14(c *core.Case) {
 			}
 			if hit && strings.Contains(fault, "lost-ack") || strings.Contains(fault, "after-store") {
 				defer c.Count("lost_ack_then_converged", 1)
+			}
+		}
+		if expect == "must" && (c.Index/2+round)%2 == 1 {
+			// the service's snapshot arrives damaged once: the restore must fail
+			// without touching the node's database, position or log
+			hist = append(hist, "fault:wrap-corrupt-snapshot")
+			before, bimg := primaryState(P)
+			ltxDir := filepath.Join(mon.DBDir(P.n, "db"), "ltx")
+			P.rec.setFault("wrap-corrupt-snapshot")
+			evs, err := syncOnce(P)
+			P.rec.setFault("")
+			c.Count("syncs_judged", 1)
+			hit := false
+			for _, e := range evs {
+				if e.Fault == "wrap-corrupt-snapshot" {
+					hit = true
+				}
+			}
+			if hit {
+				c.Count("fault_wrap-corrupt-snapshot", 1)
+				if healthViolations(c, P.n, "damaged snapshot", detail(nil)) {
+					return
+				}
+				after, aimg := primaryState(P)
+				if err == nil {
+					c.Violate("C14/damaged-snapshot-accepted", fmt.Sprintf("the service's snapshot arrived with a flipped byte and the sync reported success (node %s -> %s)", before, after), detail(nil))
+					return
+				}
+				if after != before || aimg.Diff(bimg) != "" {
+					c.Violate("C14/damaged-snapshot-changed-node", fmt.Sprintf("a damaged snapshot from the service was refused but changed the node: %s -> %s (%s)", before, after, aimg.Diff(bimg)), detail(nil))
+					return
+				}
+				if before.TXID > 0 {
+					if probs := mon.ChainProblems(ltxDir, before.TXID, before.Chk); len(probs) > 0 {
+						c.Violate("C14/damaged-snapshot-broke-log", fmt.Sprintf("a damaged snapshot from the service was refused but the node's transaction log no longer ends at its position %s: %s", before, strings.Join(probs, "; ")), detail(nil))
+						return
+					}
+				}
 			}
 		}
 		if !converge(P, rel+" round", maxSyncs, expect) {
